@@ -525,12 +525,13 @@ def file_story(k0, k1, e, final_nl, bom):
         return "bare LF introduced", items, raw, got
     # 2. file level == text level
     norm_in = raw.replace(ending, "\n") if ending in raw else raw
+    mark = "\ufeff" if norm_in.startswith("\ufeff") else ""
     try:
-        want = annotate_text(norm_in)
+        want = mark + annotate_text(norm_in[len(mark) :])  # the mark is not text: it stays where it is
     except (CommentCreateError, MissingReuseInfoError):
         return "file written although the text-level call refuses", items, raw, got
     if got.replace(conv, "\n") != want:
-        return "file content differs from the text-level result", items, raw, got
+        return ("byte order mark no longer first" if mark and not got.startswith(mark) else "file content differs from the text-level result"), items, raw, got
     # 3. a byte order mark stays first (and in any case is not lost, except that a .license file is rewritten whole)
     if bom and "﻿" not in got and STYLE is not cm.EmptyCommentStyle:
         return "byte order mark dropped", items, raw, got
